@@ -1774,9 +1774,14 @@ def evaluate__node_name(self: XPathFunction, context: ta.ContextType = None) \
             for pfx, uri in self.parser.namespaces.items():
                 if uri == namespace:
                     if not pfx:
+                        if not isinstance(arg, ElementNode):
+                            continue  # the default namespace does not apply to attributes
                         return QName(uri, local_name)
                     return QName(uri, '{}:{}'.format(pfx, local_name))
             raise self.error('FONS0004', 'no prefix found for namespace {}'.format(namespace))
+        elif not isinstance(arg, ElementNode):
+            # an unprefixed attribute (or a processing instruction target) is in no namespace
+            return QName('', name)
         else:
             # name is a local name
             return QName(self.parser.namespaces.get('', ''), name)
